@@ -65,7 +65,8 @@ ScalarDiff(rec) ==
 HasRef(nm) == nm \in IntNames \/ IsCmp(nm) \/ IsFSel(nm) \/ IsFloatArith(nm) \/ nm = "v_readfirstlane_b32"
 
 VecSem(nm, rec, k) ==
-  IF nm \in IntNames THEN VIntSem(nm, rec, k)
+  IF Has(rec, "dsel") THEN VSdwaSem(nm, rec, k)
+  ELSE IF nm \in IntNames THEN VIntSem(nm, rec, k)
   ELSE IF IsCmp(nm) THEN [d |-> <<>>, cc |-> VCmpSem(nm, rec, k)]
   ELSE IF IsFSel(nm) THEN VFSelSem(nm, rec, k)
   ELSE VFloatSem(nm, rec, k)
